@@ -420,6 +420,82 @@ fn range_case(rng: &mut Rng, k: usize) {
   }
 }
 
+/// every range function of the generated call table (Gen/Ranges.v) against point-by-point evaluation on the same code path:
+/// an asymmetric (type-II) setup, a NON-square grid whose signal and idler axes differ, evaluated on a one-thread pool so that the
+/// quadratures inside the singles spectra are reassociated identically (bit-exact comparison)
+fn range_table_case(rng: &mut Rng, k: usize) {
+  let which = if k % 3 == 2 { 0 } else { 1 };
+  let spdc = spdc_for(which);
+  let divs = 6 + 2 * rng.below(3);
+  let integrator = Integrator::Simpson { divs };
+  let nx = 2 + rng.below(3);
+  let ny = nx + 1 + rng.below(2);
+  let (nx, ny) = if rng.coin() { (nx, ny) } else { (ny, nx) };
+  let base = spdc.optimum_range(8).as_steps();
+  let cxs = 0.5 * (fv(base.0 .0) + fv(base.0 .1));
+  let cys = 0.5 * (fv(base.1 .0) + fv(base.1 .1));
+  let hx = 0.5 * rng.range(0.5, 0.9) * (fv(base.0 .1) - fv(base.0 .0));
+  let hy = 0.5 * rng.range(0.2, 0.45) * (fv(base.1 .1) - fv(base.1 .0));
+  // the two axes differ in centre offset, span and count: no (ws, wi) <-> (wi, ws) symmetry of the point set
+  let fs = FrequencySpace::new((hz(cxs - 0.8 * hx), hz(cxs + 1.2 * hx), nx), (hz(cys - 1.3 * hy), hz(cys + 0.7 * hy), ny));
+  let rep = ["frequency", "wavelength", "sumdiff"][k % 3];
+  let (tx, rx) = std::sync::mpsc::channel();
+  let spdc2 = spdc.clone();
+  std::thread::spawn(move || {
+    let pool = rayon::ThreadPoolBuilder::new().num_threads(1).build().unwrap();
+    let out = pool.install(|| {
+      let sp = spdc2.joint_spectrum(integrator);
+      let sp_swapped = spdcalc::JointSpectrum::new(spdc2.clone().with_swapped_signal_idler(), integrator);
+      let un = |v: Vec<spdcalc::JSIUnits<f64>>| -> Vec<f64> { v.iter().map(|x| *x.value_unsafe()).collect() };
+      let ucx = |v: Vec<Complex<f64>>| -> Vec<f64> { v.iter().flat_map(|z| [z.re, z.im]).collect() };
+      macro_rules! all_ranges {
+        ($r:expr) => {{
+          let pts: Vec<(Frequency, Frequency)> = $r.into_signal_idler_iterator().collect();
+          let rows: Vec<(&'static str, usize, Vec<f64>, Vec<f64>)> = vec![
+            ("jsa_range", 2, ucx(sp.jsa_range($r)), ucx(pts.iter().map(|(a, b)| sp.jsa(*a, *b)).collect())),
+            ("jsa_normalized_range", 2, ucx(sp.jsa_normalized_range($r)), ucx(pts.iter().map(|(a, b)| sp.jsa_normalized(*a, *b)).collect())),
+            ("jsi_range", 1, un(sp.jsi_range($r)), un(pts.iter().map(|(a, b)| sp.jsi(*a, *b)).collect())),
+            ("jsi_normalized_range", 1, sp.jsi_normalized_range($r), pts.iter().map(|(a, b)| sp.jsi_normalized(*a, *b)).collect()),
+            ("jsi_singles_range", 1, un(sp.jsi_singles_range($r)), un(pts.iter().map(|(a, b)| sp.jsi_singles(*a, *b)).collect())),
+            ("jsi_singles_idler_range", 1, un(sp.jsi_singles_idler_range($r)), un(pts.iter().map(|(a, b)| sp_swapped.jsi_singles(*b, *a)).collect())),
+            ("jsi_singles_normalized_range", 1, sp.jsi_singles_normalized_range($r), pts.iter().map(|(a, b)| sp.jsi_singles_normalized(*a, *b)).collect()),
+            ("jsi_singles_idler_normalized_range", 1, sp.jsi_singles_idler_normalized_range($r),
+              pts.iter().map(|(a, b)| sp_swapped.jsi_singles_normalized(*b, *a)).collect()),
+          ];
+          // how many points tell the argument orders apart (an oracle that cannot see a swapped argument pair is vacuous)
+          let sens = pts.iter().filter(|(a, b)| sp_swapped.jsi_singles_normalized(*b, *a).to_bits() != sp_swapped.jsi_singles_normalized(*a, *b).to_bits()).count();
+          let sens_own = pts.iter().filter(|(a, b)| sp.jsi_normalized(*a, *b).to_bits() != sp.jsi_normalized(*b, *a).to_bits()).count();
+          // what jsi_singles_idler_normalized_range would return if it forgot to swap the arguments (used by the oracle's self-test)
+          let wrong: Vec<f64> = pts.iter().map(|(a, b)| sp_swapped.jsi_singles_normalized(*a, *b)).collect();
+          (pts, rows, sens, sens_own, wrong)
+        }};
+      }
+      match rep {
+        "frequency" => all_ranges!(fs),
+        "wavelength" => {
+          let ws = fs.as_wavelength_space();
+          all_ranges!(ws)
+        }
+        _ => {
+          let sd = fs.as_sum_diff_space();
+          all_ranges!(sd)
+        }
+      }
+    });
+    let _ = tx.send(out);
+  });
+  match rx.recv_timeout(std::time::Duration::from_secs(600)) {
+    Ok((pts, rows, sens, sens_own, wrong)) => {
+      let p: Vec<(f64, f64)> = pts.iter().map(|(a, b)| (fv(*a), fv(*b))).collect();
+      let fns: Vec<Value> = rows.iter().map(|(name, w, r, q)| json!({"fn": name, "width": w, "range": fxs(r), "pointwise": fxs(q)})).collect();
+      emit(json!({"kind": "range_all", "rep": rep, "spdc": which, "divs": divs, "nx": nx, "ny": ny, "grid": fs_json(&fs), "pts": flat(&p), "fns": fns,
+        "swapped_args_differ_idler": sens, "swapped_args_differ_own": sens_own,
+        "selftest_idler_normalized_unswapped": fxs(&wrong)}));
+    }
+    Err(_) => emit(json!({"kind": "range_all_failed", "rep": rep, "spdc": which})),
+  }
+}
+
 pub fn run(args: &[String]) {
   let seed = arg_u64(args, 0, 1);
   let n = arg_u64(args, 1, 4) as usize;
@@ -441,6 +517,9 @@ pub fn run(args: &[String]) {
   if mode == "range" || mode == "all" {
     for k in 0..n.max(2) {
       range_case(&mut rng, k);
+    }
+    for k in 0..n.max(3) {
+      range_table_case(&mut rng, k);
     }
   }
 }
